@@ -82,6 +82,71 @@ def pinput(blk):
             "common_preamble": blk.preamble_size() if post else 0}
 
 
+def derive_req(blk, lay):
+    """Input of `SPModel.Derive.generate` (interface I8d): the derived factors of the active design with one truth
+    table per level, obtained by calling the level's own predicate on every window tuple (digit 0 = None)."""
+    from sweetpea._internal.primitive import DerivedFactor
+    act = list(blk.act_design)
+    derived = []
+    for f in blk.design:
+        if not isinstance(f, DerivedFactor) or f not in act:
+            continue
+        win = f.levels[0].window
+        deps = list(win.factors)
+        width = win.width
+        bases = [len(df.levels) + 1 for df in deps for _ in range(width)]
+        names = [[None] + [l.name for l in df.levels] for df in deps for _ in range(width)]
+        size = 1
+        for b in bases:
+            size *= b
+        if size > 20000:
+            raise Unsupported("table too large")
+        tables = []
+        for level in f.levels:
+            pred = level.window.predicate
+            tab = []
+            for key in range(size):
+                digits, k = [], key
+                for b in reversed(bases):
+                    digits.append(k % b)
+                    k //= b
+                digits.reverse()
+                args = [nm[dg] for nm, dg in zip(names, digits)]
+                if width != 1:
+                    args = [{i - width + 1: args[j * width + i] for i in range(width)} for j in range(len(deps))]
+                try:
+                    tab.append(bool(pred(*args)))
+                except Exception:  # noqa: BLE001  (a predicate that cannot take None where no tuple has it)
+                    tab.append(False)
+            tables.append(tab)
+        derived.append({"fi": act.index(f), "deps": [act.index(df) for df in deps], "width": width,
+                        "start_delta": win.start_delta, "tables": tables})
+    return {"op": "derive", "factors": lay["factors"], "trials": lay["trials"], "derived": derived}
+
+
+def compare_derive(d, blk, req):
+    """I8d: the Derivation constraints of the block (as the I8 extractor read them) vs `Derive.generate` on the
+    predicate tables.  Returns None when equal."""
+    dreq = derive_req(blk, req)
+    le = d.ask(dreq)
+    want = [{"idx": c["idx"], "f": c["f"], "start_delta": c["start_delta"], "deps": c["deps"]}
+            for c in req["constraints"] if c["c"] == "derivation"]
+    if "ok" not in le:
+        return {"interface": "I8d", "lean": str(le)[:300], "python_derivations": len(want)}
+    got = le["ok"]["derivations"]
+    if got != want:
+        i = next((i for i in range(min(len(got), len(want))) if got[i] != want[i]), min(len(got), len(want)))
+        return {"interface": "I8d", "first_difference_at_derivation": i, "lean": got[i:i + 1], "python": want[i:i + 1],
+                "lean_count": len(got), "python_count": len(want)}
+    # messages of block.errors: one per level without a matching tuple, one per tuple without a level
+    errs = [e for e in getattr(blk, "errors", ())]
+    n_unmatched = sum(len(u) for u in le["ok"]["unmatched"])
+    n_uncovered = sum(le["ok"]["uncovered"])
+    return None if (n_unmatched, n_uncovered) == (0, 0) or errs else \
+        {"interface": "I8d", "lean_unmatched": le["ok"]["unmatched"], "lean_uncovered": le["ok"]["uncovered"],
+         "python_errors": errs}
+
+
 def py_cnf(blk):
     cnf = build_cnf(blk)
     return [[int(v) for v in cl] for cl in cnf._vals]
@@ -109,6 +174,16 @@ def _truncated_window(req):
 def compare(ctx, d, blk):
     """returns None when equal, else a short description of the first difference"""
     req = pinput(blk)
+    try:
+        dd = compare_derive(d, blk, req)
+    except Unsupported:
+        dd = None
+        ctx.count("I8d.unsupported")
+    else:
+        ctx.count("I8d.derive")
+        ctx.count("I8d.derivations", sum(1 for c in req["constraints"] if c["c"] == "derivation"))
+    if dd is not None:
+        return req, dd
     try:
         py = {"ok": py_cnf(blk)}
     except Exception as e:  # noqa: BLE001
